@@ -4,6 +4,6 @@ set -e
 cd "$(dirname "$0")"
 if [ "$1" = "--clean" ]; then rm -rf .build .build-alt .work; exit 0; fi
 mkdir -p .build .work evidence
-CFGS="${VERIF_SETUP_CFGS:-base256 w8 karat2 dyn p255 p255-extnd p381 trace256 trace381 pth map-swift fuzz256}"
+CFGS="${VERIF_SETUP_CFGS:-base256 w8 karat2 dyn p255 p255-extnd p381 trace256 trace255 trace381 pth map-swift fuzz256}"
 /usr/local/bin/python3-vt engine/build.py $CFGS
 echo "setup ok"
